@@ -47,6 +47,7 @@ class Ctx:
         self.checker_cmds = []
         self.notes = []
         self.drift = []
+        self.deferred = []
         self.findings = load_findings().get(pid, [])
         rd = VERIF / "replay" / pid
         if rd.exists():
@@ -162,6 +163,11 @@ class Ctx:
         return out
 
     # ---- bookkeeping -----------------------------------------------------------------------
+    def defer_machinery(self, msg: str) -> None:
+        """A canary was accepted.  With nothing else wrong that is a machinery failure (exit 2, raised by finish()); when real executions were
+        rejected as well, the canary's source was itself a misbehaving execution: the violations stand and the message becomes a note."""
+        self.deferred.append(msg)
+
     def sample(self, obj, limit=6):
         if len(self.samples) < limit:
             self.samples.append(obj)
@@ -190,6 +196,12 @@ class Ctx:
 
     def finish(self, *, rule: str, exhaustive: bool = False, assumptions: list[str] | None = None,
                trusted: list[str] | None = None) -> int:
+        if self.deferred:
+            if not self.violations:
+                raise MachineryError("; ".join(self.deferred))
+            self.notes.append("a canary built from one of the misbehaving executions was not rejected (not counted against the machinery because real "
+                              "executions were rejected as well): " + "; ".join(self.deferred)[:300])
+            self.deferred = []
         wall = time.time() - self.t0
         cov = {
             "states": int(self.states),
